@@ -1,6 +1,8 @@
 import Afkak.Producer
 import Afkak.ProducerR
 import Driver.ProducerCodec
+import Driver.ProducerComposeCodec
+import Driver.ProducerArgsCodec
 /-! Line-protocol driver for the Producer model (exe `model_producer`).
 Requests: `reset`, `init …`, one line per event (see `Driver/ProducerCodec.lean`), and the monitor
 requests `trace-begin` / `trace-end <monitors>` (the lines between them are an IMPLEMENTATION trace). -/
@@ -26,12 +28,24 @@ def step (d : DSt) (line : String) : DSt × List String :=
     match words line with
     | ["reset"] => ({}, ["ok"])
     | ["trace-begin"] => ({ d with recd := some [] }, [])
+    | "compose-call" :: args => (d, Driver.ProducerComposeCodec.composeCall args)
     | "init" :: args =>
       match parseCfg args with
       | some cfg =>
         let st := St.init cfg
         ({ d with cfg := some cfg, st := { core := st } }, [s!"ok looper={if st.looper then 1 else 0}"])
       | none => (d, ["bad-op"])
+    | "sendraw" :: args =>
+      -- `send_messages` with raw arguments (`Afkak.ProducerArgs.stepA`): refused by the validation - nothing changes -
+      -- or the `send` event with the next send id
+      match d.cfg, Driver.ProducerArgsCodec.parseArgs args with
+      | some cfg, some a =>
+        match Afkak.ProducerArgs.validate a with
+        | .error k => (d, [s!"refused {showKind k}", showState d.st.core])
+        | .ok acc =>
+          let (st', obs) := Afkak.ProducerR.stepR cfg 12 d.st (.flat (.send d.st.core.nextSid acc.topic acc.key acc.msgs))
+          ({ d with st := st' }, obs.map showObR ++ [showState st'.core])
+      | _, _ => (d, ["bad-op"])
     | ws =>
       match d.cfg, parseEvR ws with
       | some cfg, some ev =>
